@@ -102,8 +102,8 @@ Avail(blk, encOk) == NoDynRef(blk) \/ encOk
    hs = 0 before the headers, 1 after them, 2 after the trailers.
      toks  tokens denoted so far
      err   the stream is a protocol error (the connection is closed)
-     open  a frame header or a frame other than DATA is incomplete: nothing
-           more is denoted, not even the end of the stream
+     open  a frame other than DATA is incomplete: nothing more is denoted
+           (and the end of the stream there is an error, see FramedMeaning)
    The walk stops at the first header block that is not available: a block
    waiting for the encoder stream hides everything behind it. *)
 RECURSIVE Walk(_, _, _, _, _, _, _)
@@ -134,18 +134,9 @@ Walk(bs, fs, j, hs, push, client, encOk) ==
     [] f.type \in Reserved /\ full /\ ~(f.type = PUSH_PROMISE /\ push = None) -> Stop(TRUE, FALSE, FALSE)
     [] OTHER -> Then(<<>>, hs)                             \* unknown frame types are ignored
 
-\* a request or push stream whose frames start at offset i
-FramedMeaning(bs, i, fin, push, client, encOk) ==
-  LET p == FramesFrom(bs, i)
-      w == Walk(bs, p.frames, 1, 0, push, client, encOk)
-      ended == fin /\ ~w.err /\ ~w.open /\ ~w.hidden /\ p.rest = Len(bs) IN
-  [toks |-> IF ended THEN w.toks \o <<ETok>> ELSE w.toks, err |-> w.err]
-
 (* The bytes end at a frame boundary, so a FIN after them does not cut a frame
-   (or a frame header) in two.  RFC 9114 section 7.1 makes a frame truncated by
-   the end of the stream a connection error; aioquic does not raise it, and
-   what it reports for such a stream is outside the statement of C14 (only the
-   headers and body bytes before the cut are compared, not the end token). *)
+   (or a frame header) in two.  RFC 9114 section 7.1: a frame truncated by the
+   end of the stream is a connection error (H3_FRAME_ERROR). *)
 FramedFrom(bs, i) ==
   LET p == FramesFrom(bs, i) IN
   p.rest = Len(bs) /\ \A j \in {Len(p.frames)} \ {0} :
@@ -155,6 +146,16 @@ WellFramed(sid, bs) ==
   ELSE LET t == VarintAt(bs, 0)
            v == VarintAt(bs, t.next) IN
        IF t.ok /\ t.val = ST_PUSH /\ v.ok THEN FramedFrom(bs, v.next) ELSE TRUE
+
+\* a request or push stream whose frames start at offset i.  The stream is an
+\* error when a frame is one, or when its end cuts a frame in two -- unless a
+\* block still waiting for the encoder stream hides that end.
+FramedMeaning(bs, i, fin, push, client, encOk) ==
+  LET p == FramesFrom(bs, i)
+      w == Walk(bs, p.frames, 1, 0, push, client, encOk)
+      cut == fin /\ ~w.err /\ ~w.hidden /\ ~FramedFrom(bs, i)
+      ended == fin /\ ~w.err /\ ~w.hidden /\ ~cut IN
+  [toks |-> IF ended THEN w.toks \o <<ETok>> ELSE w.toks, err |-> w.err \/ cut]
 
 (* Frames of the control stream are taken whole; they produce no event.  The
    statement of C14 is about events, so only "is it an error" is described:
